@@ -30,7 +30,7 @@ VerPkgs  == {q \in MPkgs : q.iuse = {} /\ q.use = {} /\ q.slot = "0" /\ q.subslo
 \* attribute side: every slot / sub-slot / repository / USE combination, two version constraints
 AttrAtoms == {x \in MAtoms : OkAtom(x) /\ x.pkg = "p" /\ x.ver = V1 /\ x.op = ""
                               /\ (x.deps # {} \/ x.slot # "" \/ x.repo # "")}
-AttrPkgs  == {q \in MPkgs : q.ver \in (IF Size > 1 THEN {V1, V(<<<<1>>>>, 0, <<>>, <<1>>)} ELSE {V1}) /\ q.use \subseteq q.iuse
+AttrPkgs  == {q \in MPkgs : q.ver \in (IF Size > 1 THEN {V1, V(<<<<1>>>>, 0, <<>>, <<1>>)} ELSE {V1}) /\ (Size > 1 \/ q.use \subseteq q.iuse)
                               /\ (Size > 1 \/ (q.slot = "0") = (q.subslot = "0"))}
 Init == a \in VerAtoms \cup AttrAtoms /\ p = (CHOOSE q \in VerPkgs : TRUE) /\ ph = 0
 Next == /\ ph = 0 /\ ph' = 1 /\ a' = a
